@@ -52,8 +52,7 @@ DecayClause(e) ==
   LET tot0 == TotalAt(e.products, Zero)
       below == Le(tot0, e.target)
   IN IF e.res.k = "exc" THEN (IF e.res.exc = "RuntimeError" /\ ~below THEN "ok" ELSE "DecayTimeRaises:" \o e.res.exc)
-     ELSE IF ~Num(e.res) \/ Lt(e.res.v, Neg(Sci(1, -9))) THEN "DecayTimeIsNonNegativeNumber"
-     \* (a root within rounding of 0, e.g. -3e-17 h at target = activity at removal, counts as 0)
+     ELSE IF ~Num(e.res) \/ e.res.v.s < 0 THEN "DecayTimeIsNonNegativeNumber"
      ELSE IF Le(e.res.v, Zero) THEN (IF Le(tot0, Mul(e.target, Add(One, Sci(1, -3)))) THEN "ok" ELSE "ZeroOnlyWhenAlreadyBelowTarget")
      ELSE IF Lt(tot0, Mul(e.target, Sub(One, Sci(1, -3)))) THEN "ZeroWhenAlreadyBelowTarget"
      ELSE IF Gt(Abs(Sub(TotalAt(e.products, e.res.v), e.target)), Mul(e.target, Sci(1001, -6))) THEN "ActivityAtReturnedTimeIsTarget"
